@@ -4,5 +4,5 @@ CONSTANTS
   MaxPayload = 4
   AddrVecs <- AddrThorough
   OddTail = TRUE
-INVARIANTS TypeOK SumIsFFFF FlipsDetected
+INVARIANTS TypeOK SumIsFFFF FlipsDetected OnlyTwinVerifies
 CHECK_DEADLOCK FALSE
